@@ -29,7 +29,8 @@ META = dict(
          "model bit for bit and the same warnings, with no deadlock; over a model alphabet, compile/compile, "
          "compile(copySpec), copyModel and usethread on/off are bit-identical and mj_recompile preserves state.",
     note="PNG/OBJ decoders are inert here: assets are inline meshes (hull by the qhull double) and builtin textures; "
-         "sequentially consistent scheduler; plain data races are outside what the scheduler sees.",
+         "sequentially consistent scheduler; plain data races are outside what the scheduler sees and are delegated to a "
+         "free-running ThreadSanitizer companion pass (sampling, reported separately).",
     design_ref="DESIGN.md §3 C33")
 
 SCHED = ("src/user/user_threadpool.cc", "src/user/user_model.cc", "src/user/user_cache.cc")
@@ -100,6 +101,7 @@ def _e1_models(thorough):
     for nm in (2, 3, 4):
         for nt in (0, 2, 3):
             out.append(("assets%d_%d" % (nm, nt), asset_model(nm, nt)))
+    out.append(("randtex", random_texture_model()))
     feat = ('<tendon><fixed name="t"><joint joint="j0_0" coef="1"/><joint joint="j1_0" coef="-1"/></fixed></tendon>\n'
             '<equality><joint joint1="j0_0" joint2="j1_0"/></equality>\n'
             '<actuator><motor joint="j0_0"/><position joint="j1_0" kp="2"/></actuator>\n'
@@ -224,6 +226,54 @@ def _e1(chunk):
     return part
 
 
+def random_texture_model():
+    """4 inline meshes + 4 builtin textures that all draw random dots (mark="random", random>0): several texture tasks that use
+    the pseudo-random generator overlap on the pool."""
+    v0, f0 = A.icosphere(0, 0.1)
+    meshes = [A.mesh_asset("m0", A.TETRA), A.mesh_asset("m1", A.OCTA), A.mesh_asset("m2", v0, f0), A.mesh_asset("m3", A.TETRA * 1.5)]
+    tex = ['    <texture name="r%d" type="%s" builtin="%s" width="%d" height="%d" mark="random" random="0.%d" markrgb="1 1 0"/>' %
+           (i, "2d" if i % 2 == 0 else "cube", ["flat", "gradient", "checker", "flat"][i], 64 + 32 * i, 64 + 32 * i, 2 + i) for i in range(4)]
+    body = "\n".join('    <body name="mb%d" pos="%d 0 1"><freejoint/><geom type="mesh" mesh="m%d"/></body>' % (i, i, i) for i in range(4))
+    return A.mjcf(body, asset="\n".join(meshes + tex))
+
+
+def _tsan(ctx):
+    """Companion pass (sampling, reported separately, not the deciding step): the threaded asset compiler free-running in the
+    ThreadSanitizer build.  The scheduler of the E3 part interleaves at synchronisation operations only; state shared between
+    asset tasks WITHOUT synchronisation (a hoisted static buffer, a shared random engine) is what this pass is for."""
+    try:
+        x = build.ensure_exe("c33_free", ["drivers/c33_free.cc"], variant="tsan")
+    except SystemExit:
+        ctx.extra["tsan_companion"] = "build failed"
+        return
+    d = os.path.join(build.CACHE, "c33")
+    os.makedirs(d, exist_ok=True)
+    runs = reports = 0
+    for name, xml in (("randtex", random_texture_model()), ("m4t3", asset_model(4, 3))):
+        pt, ps = os.path.join(d, name + "_thr.xml"), os.path.join(d, name + "_ser.xml")
+        for p_, txt in ((pt, xml), (ps, xml.replace("<compiler ", '<compiler usethread="false" ', 1))):
+            tmp = p_ + ".%d.tmp" % os.getpid()
+            with open(tmp, "w") as fh:
+                fh.write(txt)
+            os.replace(tmp, p_)
+        env = dict(os.environ, TSAN_OPTIONS="halt_on_error=0:exitcode=66:report_signal_unsafe=0")
+        r = subprocess.run([x, pt, ps, "12" if ctx.thorough else "4"], capture_output=True, text=True, env=env)
+        runs += 1
+        if "WARNING: ThreadSanitizer" in r.stderr:
+            reports += 1
+            top = [ln.strip() for ln in r.stderr.splitlines() if ln.strip().startswith("#0")][:2]
+            ctx.violation("tsan: data race in the threaded asset compiler", "ThreadSanitizer report while compiling model %s (%s):\n%s"
+                          % (name, "; ".join(top), r.stderr[:1500]), {"model": name, "xml": xml})
+        elif r.returncode not in (0, 1) or "FREESTATS" not in r.stdout:
+            ctx.violation("harness c33 tsan companion", "driver failed rc=%d: %s" % (r.returncode, r.stderr[-400:]), {"model": name})
+        for line in r.stdout.splitlines():
+            if line.startswith("FREEDIFF"):
+                ctx.violation("free-running threaded compile differs from the serial compile", "model %s: %s" % (name, line),
+                              {"model": name, "xml": xml})
+    ctx.extra["tsan_companion_runs"] = runs
+    ctx.extra["tsan_companion_reports"] = reports
+
+
 def _chunk_e3(chunk):
     total = core.Ctx("C33", "quick", 0, LEVEL)
     for a in chunk:
@@ -259,6 +309,7 @@ def run(ctx):
     core.pmap(sub, _e1, e1, nchunks=32)
     ctx.merge({"evaluations": sub.evaluations, "nontrivial": sub.nontrivial, "samples": sub.samples,
                "violations": [{"key": k, "what": w, "replay": r} for k, w, r in sub.violations], "extra": sub.extra})
+    _tsan(ctx)
     ctx.states += len(e1)
     ctx.transitions += sub.evaluations
     ctx.traces += sub.evaluations
@@ -270,7 +321,9 @@ def run(ctx):
                 "mj_recompile after {none, add body, delete leaf body}" %
                 (", (4,3)" if ctx.thorough else "", "/3" if ctx.thorough else "", bound, len(e1), 3 if ctx.thorough else 2))
     ctx.assumptions = ["asset cache capacity set to 0 in the E3 harness (no cross-execution cache hits)",
-                       "sequentially consistent scheduler"]
+                       "sequentially consistent scheduler",
+                       "unsynchronised sharing between asset tasks is covered only by the TSan companion (free-running, sampling): models "
+                       "with 4 meshes + 4 random-dot textures and 4 meshes + 3 textures"]
 
 
 def replay(ctx, path):
